@@ -43,7 +43,10 @@ RULE = ("documents: page trees of <= 60 nodes generated as real PDFs (chains up 
         "drops >= 1 page")
 TRUSTED_BASE = [
     "tools/translate/gen_c04.py (Python ast -> Lean) for INHERITABLE_ATTRS, the Rotate normalisation arithmetic of "
-    "PDFPage.__init__, the US-Letter default, the process_page rotation->CTM table and begin_page's box; every "
+    "PDFPage.__init__, the rotation option of extract_text_to_fp, the US-Letter default, _normalize_rect, the "
+    "process_page rotation->CTM table, begin_page's box and the tests of the overlay loop and of the get_pages loop; "
+    "the statement skeletons of depth_first_search, of the tail of create_pages and of the get_pages loop, and the "
+    "page_numbers/maxpages plumbing of extract_text/extract_pages/extract_text_to_fp are asserted on the AST; every "
     "translated definition is also run against pdfminer",
     "hand model lean/PdfVerif/Model/PageTree.lean of create_pages.depth_first_search, the fallback scan, "
     "PDFPage.__init__ and get_pages (correspondence-checked on generated documents)",
@@ -52,9 +55,9 @@ TRUSTED_BASE = [
     "exact rationals stand for Python floats (generated coordinates are dyadic, so the float arithmetic is exact)",
 ]
 ASSUMPTIONS = [
-    "Kids entries are indirect references (or integers naming existing objects); Type values are direct names; "
-    "a dictionary written directly into a Kids array (handled by the code: Page yielded with pageid None, Pages "
-    "ignored) is outside the model's value space and not generated",
+    "property domain: Kids entries are indirect references; Type values are direct names. Integer kids, dictionaries "
+    "written directly into Kids or as catalog Pages (Page yielded with pageid None, Pages ignored), atoms in Kids "
+    "are modelled and generated for the tie; dictionary values are atoms or arrays (a direct dictionary holds atoms)",
     "the catalog itself carries no inheritable attribute (property domain: trees of Pages/Page nodes); "
     "catalog-level attributes are generated for the model/implementation tie only",
     "Rotate values are integers; boxes are arrays of numbers (other types get the default box / 0: tie only)",
@@ -70,17 +73,26 @@ STATEMENT_STATUS: Dict[str, str] = {
     "C04_driver_domain": "proved: documents accepted by the driver's spec.pages satisfy the hypotheses of C04_pages",
     "C04_catalog_attr_cex": "proved counter-example showing the catalog hypothesis is needed (catalog-level Rotate "
                             "is inherited by the code; outside the property's domain of Pages/Page trees)",
-    "C04_terminates": "proved: on every finite graph recursion budget |nodes|+1 is never exhausted, no node is "
-                      "visited twice, no page is yielded twice; NOT proved: that on a cyclic graph every reachable "
-                      "page is yielded in first-visit order (harness only)",
+    "C04_terminates": "proved for every object graph (no finiteness hypothesis left: the store is a finite list): "
+                      "recursion budget #objects+1 never exhausted, no node visited twice, no object yielded twice",
+    "C04_graph": "proved (was harness-only): when the walk ends normally everything reachable along Kids is visited, "
+                 "the yielded indirect pages are exactly the visited Page nodes in first-visit order, every reachable "
+                 "Page is yielded exactly once",
+    "C04_graph_inherit": "proved (was harness-only): on any graph each yielded page's attributes are its own or the "
+                         "nearest definer's on the Kids chain along which it is first reached",
+    "C04_resolve_total": "proved: resolve1's loop with its seen set never exhausts #objects+1 (the fixed chain "
+                         "limit 8 of round 1 is gone)",
     "C04_rotate": "proved for every integer Rotate",
-    "C04_page_values": "proved: every constructed page has 0 <= rotate < 360 and normalised MediaBox/CropBox",
+    "C04_rotation_option": "proved for all integers: extract_text_to_fp(rotation=) arithmetic (regenerated)",
+    "C04_page_values": "proved unconditionally: every constructed page has 0 <= rotate < 360 and normalised boxes",
     "C04_box_normalised": "proved: regenerated _normalize_rect",
     "C04_ctm": "proved: Rotate in {0,90,180,270}, every MediaBox and point over Q (regenerated table)",
     "C04_ctm_bbox": "proved: LTPage.bbox = (0,0,w',h') for normalised MediaBox (regenerated begin_page)",
     "C04_ctm_corners": "proved: corners move clockwise by Rotate/90 places",
     "C04_render": "proved: harness observation (bbox + glyph matrix) = specification",
-    "C04_select": "proved: maxpages natural (0 = no limit), empty page_numbers = all",
+    "C04_select": "proved on the regenerated loop tests: maxpages natural (0 = no limit), empty page_numbers = all",
+    "C04_select_pending": "proved (was defined by fiat): a pending exception of create_pages is raised by get_pages "
+                          "iff the index of the failing page is below the limit",
     "C04_select_pinned_cex": "proved counter-example for the pinned loop (page_numbers={5}, maxpages=2); fixed in 262fbfd",
 }
 
